@@ -81,4 +81,33 @@ def source_get_octet (s : Src) (cell : List (BitVec 8)) : Res (BitVec 32 × Src 
   | .octet v :: r => .val (1#32, r, cell.set 0 v)
   | .fail rc :: r => .val (rc, r, cell)
 
+/-- a sink that accepts `room` more octets and answers the (negative) code `full` from then on -/
+structure Snk where
+  got : List (BitVec 8) := []
+  room : Nat
+  full : BitVec 32
+  deriving Repr, DecidableEq
+
+/-- `int sink_put_octet(Sink *sink, unsigned char data)`: 1 for the octet taken -/
+def sink_put_octet (s : Snk) (o : BitVec 8) : Res (BitVec 32 × Snk) :=
+  match s.room with
+  | 0 => .val (s.full, s)
+  | n + 1 => .val (1#32, { s with got := s.got ++ [o], room := n })
+
+/-- octets one by one until the sink refuses (what it took stays taken) -/
+def putAll (s : Snk) : List (BitVec 8) → Option (BitVec 32) × Snk
+  | [] => (none, s)
+  | o :: os => match s.room with
+    | 0 => (some s.full, s)
+    | n + 1 => putAll { s with got := s.got ++ [o], room := n } os
+
+/-- `ssize_t sink_put_chunk(Sink *sink, const void *buf, size_t n)`: all `n` octets or the sink's code;
+    `-EINVAL` for an empty chunk; a chunk longer than the block behind `buf` is an access outside it -/
+def sink_put_chunk (s : Snk) (blk : List (BitVec 8)) (n : BitVec 64) : Res (BitVec 64 × Snk) :=
+  if n = 0#64 then .val (-(22#64), s)
+  else if blk.length < n.toNat then .oob
+  else match putAll s (blk.take n.toNat) with
+    | (none, s') => .val (n, s')
+    | (some e, s') => .val (e.signExtend 64, s')
+
 end Ufw.Tie.CPre
